@@ -57,6 +57,8 @@ class Query:
     limit: int | None = None
     offset: int | None = None
     is_summarized: bool = False
+    # the columns computed by the `summarize` of this SELECT
+    summarized_cols: list[UUID] = dataclasses.field(default_factory=list)
 
 
 class SqlImpl(TableImpl):
@@ -411,6 +413,16 @@ class SqlImpl(TableImpl):
                 col._uuid for col in query.partition_by if col._uuid not in needed_cols
             ]
 
+            # a `summarize` without grouping yields one row only as long as its SELECT contains an
+            # aggregate: keep one even if nothing outside the subquery uses it
+            if (
+                query.is_summarized
+                and not query.group_by
+                and query.summarized_cols
+                and not any(uid in subquery_cols for uid in query.summarized_cols)
+            ):
+                subquery_cols.append(query.summarized_cols[0])
+
             # the names the columns have in the pipeline (two columns, one of them hidden, may
             # share a name; inside the subquery they need distinct labels)
             pipeline_name = {uid: sqa_expr[uid].name for uid in subquery_cols if uid in sqa_expr}
@@ -480,6 +492,7 @@ class SqlImpl(TableImpl):
             query.partition_by = []
             query.order_by.clear()
             query.is_summarized = True
+            query.summarized_cols = list(nd.uuids)
 
         elif isinstance(nd, verbs.SliceHead):
             if query.limit is None:
